@@ -115,6 +115,16 @@ PLANS["C17"] = dict(mc=[MC_HOOKS_Q], gen=[
     gen("hooksB", 100, 30, NL=1, D=4, HookVariants=True, Templates={"B2", "Bl", "Fl"}, MaxAuc=2, Prices={2, 4, 6}, Amts={1, 2, 4},
         CapSet={2, 6}, MaxBids=5, Tmax=20, Jump=3, CreateUntil=4, StartOffsets={0, 1}, Dur=3, UserSeq=U4, Bidders={"u2", "u3", "u4"}),
 ])
+PLANS["C20"] = dict(mc=[], no_replay=True, level="other", bins=("fr-replay",), cli=True, gen=[
+    gen("cliA", 30, 30, Templates={"F2", "B4"}, MaxAuc=2, Prices={1, 2, 3}, Amts={1, 2, 3, 5}, CapSet={3, 5}, MaxBids=5, Tmax=20,
+        Jump=3, CreateUntil=4, StartOffsets={0, 1, 2}, Dur=3),
+    gen("cliB", 30, 30, D=10, Templates={"F2", "B4"}, MaxAuc=2, Prices={5, 10, 15, 33}, Amts={1, 2, 7}, CapSet={3, 5}, MaxBids=5, Tmax=20,
+        Jump=3, CreateUntil=4, StartOffsets={0, 1, 2}, Dur=3)],
+    explanation="Conformance through the CLI adapter: the node binary is rebuilt from /repo's working tree with default flags and driven "
+                "with inputs generated from the TLA+ system specification; TLC evaluates spec/FRCli.tla (command table, message each input "
+                "stands for) on the recorded invocations: the binary starts, every module command has --help, and the message printed by "
+                "`tx fundraising <cmd> <args> --generate-only` equals the typed input field by field.",
+    assumptions=["name resolution by reflection at process start is observed, not modelled", "default build of the working tree only"])
 PLANS["C14"] = dict(mc=[], gen=GEN_MANY + scale(GEN_GENERAL, 0.3), check="C14", replicas=5, processes=2,
                     assumptions=["C14 is a 2-safety property of the implementation: the specification is deterministic by construction (every Do operator is a function), so there is no design-level model checking; the clause compares replicas of real executions"])
 PLANS["ALL"] = dict(mc=[], gen=GEN_GENERAL, check="ALL")
